@@ -224,6 +224,11 @@ Definition balancedb (G H : mgraph) : bool :=
   forallb (fun e => el_count e G =? el_count e H) (elements_of G ++ elements_of H)
   && (total_charge G =? total_charge H).
 
+(** dicts_balance_check: the records in input order, split by the verdict (balanced list, unbalanced list) *)
+Definition bal_of {X} (r : X * (mgraph * mgraph)) : bool := balancedb (fst (snd r)) (snd (snd r)).
+Definition balance_partition {X} (rs : list (X * (mgraph * mgraph))) : list X * list X :=
+  (map fst (filter bal_of rs), map fst (filter (fun r => negb (bal_of r)) rs)).
+
 (** * run functions *)
 Definition tpairsN (l : list (N * N)) : tok := tlist (fun p : N * N => L [tN (fst p); tN (snd p)]) l.
 Definition tcanon (r : option (mgraph * list (N * N) * mgraph)) : tok :=
@@ -248,3 +253,6 @@ Definition run_balance (G H : mgraph) : tok :=
   L [tbool (balancedb G H);
      tset (fun e => L [tN e; I (el_count e G); I (el_count e H)]) (nodup N.eq_dec (elements_of G ++ elements_of H));
      I (total_charge G); I (total_charge H)].
+Definition run_bal_part (rs : list (nat * (mgraph * mgraph))) : tok :=
+  let p := balance_partition rs in
+  L [tlist (fun r : nat * (mgraph * mgraph) => tbool (bal_of r)) rs; tlist tnat (fst p); tlist tnat (snd p)].
